@@ -17,7 +17,7 @@ SIM = os.path.join(VERIF, "sim")
 # such experiments never touch /repo and can run next to a sweep.
 REPO = os.environ.get("VERIF_REPO", "/repo").rstrip("/")
 ALT = REPO != "/repo"
-BUILD_DIR = SIM if not ALT else os.path.join(VERIF, "sim-alt")
+BUILD_DIR = SIM if not ALT else os.path.join(VERIF, os.environ.get("VERIF_ALT_DIR", "sim-alt"))   # (a second name lets two experiments run side by side)
 BIN = os.path.join(BUILD_DIR, "target", "debug", "redproxy-rs")
 PKI = os.path.join(SIM, "pki")
 # sensitivity experiments (VERIF_REPO) never touch the evidence and replay files of the registered checks
